@@ -126,15 +126,20 @@ def checkFormula (what : String) (atoms : Array (List Seg)) (f : Array Bool → 
     else .fail what (some w)
 
 /-- operand validity as the properties' quantifier states it -/
-def validOperand (m0 : MPoly) : Verdict :=
-  -- an interior ring without coordinates, and a polygon consisting of such rings only, enclose nothing and
-  -- are valid input ("empty rings" in the quantifier of the properties): they are left out before the checks
-  let m : MPoly := (m0.map (fun p => { p with holes := p.holes.filter (fun r => !r.isEmpty) })).filter
-    (fun p => !(p.ext.isEmpty && p.holes.isEmpty))
+def validOperand (m : MPoly) : Verdict :=
   if !(allRings m).all simpleRing then .fail "ring not simple" none else
   if !ringsNonCrossing (allRings m) then .fail "rings cross or share a segment" none else
   let l := layout m #[]
   checkFormula "operand nesting" l.atoms (nestingFormula l) 0
+
+/-- the wider notion of C03's quantifier ("including empty operands, empty rings"): an interior ring without
+    coordinates, and a polygon consisting of such rings only, enclose nothing; they are left out and the rest
+    must be a valid operand.  Used for judging the *outcome* of a call (no panic, no runaway), not for the
+    geometric oracles, whose statements are about rings with area. -/
+def validOperandForOutcome (m0 : MPoly) : Verdict :=
+  let m : MPoly := (m0.map (fun p => { p with holes := p.holes.filter (fun r => !r.isEmpty) })).filter
+    (fun p => !(p.ext.isEmpty && p.holes.isEmpty))
+  validOperand m
 
 /-- What a result must satisfy to be fed back in (C11): closed rings with area, whose edges neither cross
     nor share a segment (rings may touch themselves and each other at points), correctly nested. -/
